@@ -31,7 +31,9 @@ RULE = (
     "seeded scenes: scan 5..16 x 5..16 (odd, non-square), detector 7..13, num_bf 5..60, stack family, construction mask "
     "(symmetric disc with crop / ragged mask without crop), sub-mask class (checkerboard, halves, random), rotation, aberration class "
     "(none / defocus / astigmatism / third order, canonical symbols or aliases), all kernel names and aliases, upsampling 1..3, "
-    "low/high-pass; relation in {batch, linear, recombine, closed_zero, closed_aberr}; non-trivial = stack variance > 0, num_bf >= 5, "
+    "low/high-pass; relation in {batch, linear, recombine, closed_zero, closed_aberr, session = one instance called with all 16 accepted mask "
+    "containers/dtypes, one numpy and one torch mask buffer refilled in place (A, B, A, M, B) and calls that raise (bad epsilon / kernel / filter / "
+    "batch / mask) followed by the original call, each judged against a fresh instance}; non-trivial = stack variance > 0, num_bf >= 5, "
     "non-zero result and (batch) >= 2 distinct batch sizes compared; distinct = (relation, kernel, upsampling, mask class, aberration class)"
 )
 ASSUMPTIONS = [
@@ -42,11 +44,12 @@ ASSUMPTIONS = [
     "recombination is claimed for the single-pass kernels only (ssb, prlx, icom); obf/mf sub-mask results are observed as a negative control, not judged",
     "closed forms are judged for parallax_flip_phase=False without filters; upsampling U is the zero-interleaved image (Fourier tiling) translated on the fine grid",
     "scan sampling is chosen so that the scan Nyquist frequency is 0.6..2.2 aperture radii (otherwise ssb/obf/mf transfer nothing and the result is identically 0)",
+    "session cases: the 16 mask forms were probed to be accepted and bitwise equivalent on the unchanged tree; the raising calls were probed to raise there too (a call that does not raise is only counted); a caught exception must leave corrected_stack and every later result unchanged",
     "gc.freeze() is called once per worker after import so that the two gc.collect() calls inside reconstruct() cost ~1 ms instead of ~130 ms; it does not change what is computed",
 ]
 BUDGET = {"quick": {"soft_s": 100}, "thorough": {"soft_s": 520}}
 MIN_EVALUATIONS = {"quick": 1500, "thorough": 10000}
-REQUIRED_COUNTERS = ["eval:batch_invariance", "eval:linearity", "eval:recombination", "eval:closed_form_zero_aberration", "eval:closed_form_defocus_astigmatism"]
+REQUIRED_COUNTERS = ["eval:mask_form_dependence", "eval:mask_buffer_reuse", "eval:after_error_dependence", "eval:batch_invariance", "eval:linearity", "eval:recombination", "eval:closed_form_zero_aberration", "eval:closed_form_defocus_astigmatism"]
 EXHAUSTIVE = {"quick": False, "thorough": False}
 
 # relative bounds (see ASSUMPTIONS); measured floors over the thorough tier in worst_residuals. The float32 floor grows with
@@ -102,6 +105,13 @@ def plan(tier, seed):
         for r in range(reps["recombine"]):
             s = common(kernel)
             s.update(rel="recombine", submask=SUBMASKS[r % len(SUBMASKS)], outer=str(rng.choice(["construction", "sub"])))
+            specs.append(s)
+    # sessions on ONE instance: every accepted mask form, one mask buffer refilled in place, calls that raise in between
+    n_sess = {"quick": 30, "thorough": 500}[tier]
+    for kernel, w in (("ssb", 1), ("prlx", 1), ("icom", 1), ("obf", 2), ("mf", 2)):
+        for r in range(n_sess * w):
+            s = common(kernel)
+            s.update(rel="session", submask=SUBMASKS[r % len(SUBMASKS)], family=FAMILIES[r % 3])
             specs.append(s)
     for r in range(reps["closed_zero"]):
         s = common("prlx")
@@ -275,7 +285,7 @@ def _scene(rng, spec, ctx):
     sc.rotation = float(rng.uniform(-np.pi, np.pi)) if spec["rot"] else 0.0
     sc.canon, sc.given = _aberrations(rng, spec["aberr"], sc.lam, ka, alias=bool(rng.random() < 0.4))
     sc.mrad_units = bool(rng.random() < 0.3)
-    sc.soft = True if spec["rel"] in ("recombine", "closed_zero", "closed_aberr") else bool(rng.random() < 0.75)
+    sc.soft = True if spec["rel"] in ("recombine", "closed_zero", "closed_aberr", "session") else bool(rng.random() < 0.75)
     sc.stack = _stack(rng, spec["family"], sc.nbf, *sc.scan)
     qn = 0.5 / max(sc.ds)
     sc.kw = {}
@@ -358,6 +368,175 @@ def _fields(spec, sc, **extra):
     d.update(extra)
     return d
 
+# ------------------------------------------------------------------------------------------------
+# sessions: many calls on ONE instance. The result of a call must be a function of the *contents* of its arguments only:
+# not of the container / dtype of the mask, not of the identity of a mask buffer that is refilled in place, not of calls
+# that raised in between. Every call is judged against a fresh instance that saw a fresh bool copy of the same mask.
+
+MASK_FORMS = ["np_bool", "np_uint8", "np_int64", "np_float32", "np_float64", "np_fortran", "np_view", "t_bool", "t_uint8", "t_int32", "t_int64", "t_float32", "t_float64", "t_noncontig", "list_bool", "list_int"]  # all accepted and bitwise equivalent on the unchanged tree (probed)
+
+
+def _mask_form(torch, A, form):
+    if form == "np_bool":
+        return A.copy()
+    if form == "np_fortran":
+        return np.asfortranarray(A)
+    if form == "np_view":
+        return np.concatenate([A, ~A], 1)[:, : A.shape[1]]
+    if form == "t_noncontig":
+        return torch.tensor(np.concatenate([A, ~A], 1))[:, : A.shape[1]]
+    if form == "list_bool":
+        return A.tolist()
+    if form == "list_int":
+        return A.astype(int).tolist()
+    kind, dt = form.split("_")
+    dt = {"bool": np.bool_, "uint8": np.uint8, "int32": np.int32, "int64": np.int64, "float32": np.float32, "float64": np.float64}[dt]
+    arr = A.astype(dt)
+    return arr if kind == "np" else torch.tensor(arr)
+
+
+def _as_np(x):
+    return np.asarray(x.detach().cpu().numpy() if hasattr(x, "detach") else x)
+
+
+ERRORS = ["mf_eps_none", "mf_eps_str", "superset_small_batch", "superset", "unknown_kernel", "lowpass_str", "batch_zero", "wrong_shape_mask", "butterworth_order_none", "upsampling_str"]
+
+
+def _error_call(rng, name, sc, M, A):
+    """(mask, kwargs) of a call that raises on the unchanged tree (probed); same upsampling => same grid / buffers."""
+    kw = dict(sc.kw)
+    mask = A.copy()
+    if name.startswith("superset") and M.all():
+        name = "mf_eps_none"  # the (cropped) construction mask fills its array: there is no pixel outside it
+    if name.startswith("mf_eps"):
+        kw.update(deconvolution_kernel=["mf", "matched-filter"][int(rng.integers(2))], matched_filter_norm_epsilon=None if name == "mf_eps_none" else "0.1")
+        kw.pop("parallax_flip_phase", None)
+        if rng.random() < 0.5:
+            mask = None
+    elif name.startswith("superset"):
+        out = np.argwhere(~M)
+        k = out[int(rng.integers(len(out)))]
+        mask[tuple(k)] = True  # one pixel outside the construction mask: the stack has no image for it
+        kw["max_batch_size"] = int(rng.integers(1, 3)) if name == "superset_small_batch" else None
+    elif name == "unknown_kernel":
+        kw["deconvolution_kernel"] = "no-such-kernel"
+    elif name == "lowpass_str":
+        kw["q_lowpass"] = "0.1"
+    elif name == "batch_zero":
+        kw["max_batch_size"] = 0
+    elif name == "wrong_shape_mask":
+        mask = np.ones((M.shape[0] + 1, M.shape[1]), dtype=bool)
+    elif name == "butterworth_order_none":
+        kw.update(q_lowpass=kw.get("q_lowpass", 0.5 / max(sc.ds)), butterworth_order=None)
+    else:
+        kw["upsampling_factor"] = "2"
+    return mask, kw
+
+
+def _run_session(spec, idx, ctx, rng, sc, dp, M, sig, obs):
+    torch = ctx.state["torch"]
+    A, B = _submask_pair(rng, M, spec["submask"])
+    fresh_cache = {}
+
+    def fresh(mask):
+        key = None if mask is None else mask.tobytes()
+        if key not in fresh_cache:
+            d2 = _build(ctx, sc, sc.stack)
+            st, bf = _recon(d2, sc, mask, None)
+            fresh_cache[key] = (st, bf, _natural(d2, sc, mask, st, bf))
+        return fresh_cache[key]
+
+    def call(mask_obj, kw=None, batch=None):
+        k = dict(sc.kw if kw is None else kw)
+        k.setdefault("max_batch_size", batch)
+        dp.reconstruct(bf_mask=mask_obj, **k)
+        return dp.corrected_stack.detach().cpu().numpy().astype(np.float64)
+
+    stA, bfA, natA = fresh(A)
+    scaleA = natA[0]
+    if not scaleA > 0:
+        ctx.count("note:zero_result")
+        ctx.nontrivial(sig, False)
+        return
+    F = lambda **e: _fields(spec, sc, **e)
+    bsz = lambda m: [None, int(rng.integers(1, int(m.sum()) + 1))][int(rng.integers(2))]
+
+    # ---- 1. every accepted form of the mask argument ------------------------------------------------
+    forms = list(MASK_FORMS)
+    rng.shuffle(forms)
+    for form in forms:
+        obj = _mask_form(torch, A, form)
+        keep = np.array(_as_np(obj), copy=True) if not isinstance(obj, list) else [list(r) for r in obj]
+        try:
+            st = call(obj, batch=bsz(A))
+        except Exception as e:  # noqa: BLE001  (accepted on the unchanged tree)
+            ctx.check(False, "mask_form_dependence", "reconstruct(bf_mask=<%s>) raised %s: %s" % (form, type(e).__name__, str(e)[:200]), **F(form=form, outcome="raised", exc_type=type(e).__name__))
+            continue
+        if ctx.check(st.shape == stA.shape, "mask_form_dependence", "bf_mask given as %s: corrected_stack shape %s, bool mask gives %s" % (form, st.shape, stA.shape), **F(form=form, outcome="shape")):
+            ctx.close(_m(st - stA) / scaleA, TOL_BATCH, "mask_form_dependence", lambda: "bf_mask given as %s gives another result than the same mask as a bool array on a fresh instance" % form, **F(form=form, outcome="value"))
+        same = (obj == keep) if isinstance(obj, list) else np.array_equal(_as_np(obj), keep)
+        ctx.check(bool(same), "mask_argument_modified", "reconstruct modified the bf_mask argument (%s)" % form, **F(form=form))
+    stN = call(None, batch=bsz(M))
+    stM, bfM, natM = fresh(M)
+    if stN.shape == stM.shape and natM[0] > 0:
+        ctx.close(_m(stN - stM) / natM[0], TOL_BATCH, "mask_form_dependence", "bf_mask=None differs from the construction mask passed explicitly", **F(form="none", outcome="value"))
+
+    # ---- 2. one mask buffer refilled in place and passed as the same object -----------------------------
+    W = lambda mask: ref.aperture_weight(mask, sc.dk, sc.rotation, sc.lam, sc.semiangle)
+    for container in ("numpy", "torch"):
+        buf = np.zeros(M.shape, dtype=bool) if container == "numpy" else torch.zeros(M.shape, dtype=torch.bool)
+        got = {}
+        seq = [("A", A), ("B", B), ("A", A), ("M", M), ("B", B)]
+        for step, (nm, content) in enumerate(seq):
+            if container == "numpy":
+                buf[...] = content
+            else:
+                buf.copy_(torch.from_numpy(content.copy()))
+            stF, bfF, natF = fresh(content)
+            try:
+                st = call(buf, batch=bsz(content))
+            except Exception as e:  # noqa: BLE001  (a fresh copy of the same mask is accepted)
+                ctx.check(False, "mask_buffer_reuse", "step %d (%s): reconstruct raised %s: %s with a %s mask object refilled in place" % (step, nm, type(e).__name__, str(e)[:200], container), **F(container=container, step=step, outcome="raised", exc_type=type(e).__name__))
+                continue
+            if natF[0] > 0 and ctx.check(st.shape == stF.shape, "mask_buffer_reuse", "step %d (%s): corrected_stack shape %s, fresh instance gives %s" % (step, nm, st.shape, stF.shape), **F(container=container, step=step, outcome="shape")):
+                ctx.close(_m(st - stF) / natF[0], TOL_BATCH, "mask_buffer_reuse", lambda: "the same %s mask object refilled in place (step %d, contents %s) gives another result than a fresh instance with a fresh copy" % (container, step, nm), **F(container=container, step=step, outcome="value"))
+            ctx.check(np.array_equal(_as_np(buf), content), "mask_argument_modified", "reconstruct modified the mask buffer (%s)" % container, **F(form=container + "_buffer"))
+            got[nm] = st.sum(0)
+        if spec["kernel"] in SINGLE_PASS and all(k in got for k in "ABM"):
+            WA, WB, WM = W(A), W(B), W(M)
+            scale = max(WM * max(natM), WA * natA[0], WB * fresh(B)[2][0])
+            if min(WA, WB) > 1e-6 * WM and scale > 0 and got["A"].shape == got["M"].shape:
+                ctx.close(_m(WA * got["A"] + WB * got["B"] - WM * got["M"]) / scale, TOL_RECOMB, "recombination", lambda: "W_A R_A + W_B R_B != W R with one %s mask buffer refilled in place" % container, **F(outer="buffer_reuse"))
+
+    # ---- 3. calls that raise in between ---------------------------------------------------------------------
+    use = A if rng.random() < 0.7 else None
+    stU = stA if use is not None else stM
+    scaleU = scaleA if use is not None else natM[0]
+    names = ["mf_eps_none", "mf_eps_str", "superset_small_batch"] + [ERRORS[int(rng.integers(len(ERRORS)))] for _ in range(2)]
+    rng.shuffle(names)
+    raised = 0
+    for name in names:
+        if not scaleU > 0:
+            break
+        before = call(None if use is None else use.copy(), batch=bsz(M if use is None else use))
+        emask, ekw = _error_call(rng, name, sc, M, A)
+        try:
+            dp.reconstruct(bf_mask=emask, **ekw)
+            ctx.count("note:error_call_did_not_raise:" + name)
+            continue
+        except Exception as e:  # noqa: BLE001
+            raised += 1
+            ctx.count("error_call_raised:%s:%s" % (name, type(e).__name__))
+        kept = dp.corrected_stack.detach().cpu().numpy().astype(np.float64)
+        ctx.check(kept.shape == before.shape and np.array_equal(kept, before), "state_after_error", "corrected_stack changed although reconstruct raised (%s)" % name, **F(error=name))
+        for nth in (1, 2):
+            st = call(None if use is None else use.copy(), batch=bsz(M if use is None else use))
+            if ctx.check(st.shape == stU.shape, "after_error_dependence", "call %d after a raising call (%s): shape %s vs %s" % (nth, name, st.shape, stU.shape), **F(error=name, nth=nth, outcome="shape")):
+                ctx.close(max(_m(st - stU), _m(st - before)) / scaleU, TOL_BATCH, "after_error_dependence", lambda: "call %d after a reconstruct() that raised (%s) differs from the same call before it / on a fresh instance" % (nth, name), **F(error=name, nth=nth, outcome="value"))
+    var = float(np.asarray(sc.stack, dtype=np.float64).var())
+    ctx.nontrivial(sig, var > 0 and sc.nbf >= 5 and raised >= 1)
+    ctx.observe(forms=len(MASK_FORMS) + 1, buffer_steps=10, error_calls=names, raised=raised, nA=int(A.sum()), nB=int(B.sum()), **obs)
+
 
 def run_case(spec, idx, ctx):
     rng = ctx.rng(idx)
@@ -372,6 +551,10 @@ def run_case(spec, idx, ctx):
     var = float(stack32.astype(np.float64).var())
     sig = (rel, spec["kernel"], spec["up"], spec.get("submask", "none"), spec["aberr"])
     obs = dict(rel=rel, kernel=spec["name"], num_bf=sc.nbf, scan=sc.scan, det=sc.mask_in.shape, crop=sc.crop, up=spec["up"], aberr=sc.given, rotation=sc.rotation, semiangle=sc.semiangle, soft=sc.soft, filters={k: v for k, v in sc.kw.items() if k.startswith("q_")})
+
+    if rel == "session":
+        _run_session(spec, idx, ctx, rng, sc, dp, M, sig, obs)
+        return
 
     if rel == "batch":
         sub = _pick_submask(rng, M, spec["submask"])
